@@ -533,6 +533,12 @@ func (g *gen) rpc(id int) *RPC {
 	if g.p(k.pDeadline) {
 		r.DeadlineN = g.dur()
 	}
+	if http && (r.Kind == KClientStream || r.Kind == KBidi) && len(r.Client2) == 0 && g.p(k.pWaitCtx*0.6) {
+		// a handler that does not read its requests but waits for its context:
+		// over HTTP only the propagated deadline can end it
+		r.Handler = []Op{{K: "waitctx"}, {K: "return", St: &StatusSpec{Plain: 6}}}
+		r.DeadlineN = g.dur()
+	}
 	return r
 }
 
